@@ -8,7 +8,6 @@ import PtProofs.EvalLemmas
 import PtProofs.StackConcatLemmas
 import PtProofs.AccessLemmas
 import PtProofs.RaiseLemmas
-import PtProofs.C03
 import Mathlib.Tactic.Ring
 import Mathlib.Algebra.Field.Rat
 namespace Pt
@@ -39,28 +38,44 @@ theorem mapM_some_spec {α β : Type} (f : α → Option β) : ∀ (l : List α)
         | zero => simpa using hfa
         | succ k => simpa using h2 k (by simpa using hk) (by simpa using hk')
 
-theorem npAxisLen_spec (ls : List Nat) (d : Nat) (h : npAxisLen ls = some d) :
-    ∀ l ∈ ls, l = d ∨ l = 1 := by
-  intro l hl
-  by_cases h1 : l = 1
-  · exact Or.inr h1
-  · left
-    unfold npAxisLen at h
-    have hmem : l ∈ ls.filter (· ≠ 1) := List.mem_filter.mpr ⟨hl, by simpa using h1⟩
-    cases hf : ls.filter (· ≠ 1) with
-    | nil => rw [hf] at hmem; simp at hmem
-    | cons x xs =>
-      rw [hf] at h hmem
-      simp only at h
-      by_cases hall : xs.all (· == x) = true
-      · rw [if_pos hall] at h
-        simp only [Option.some.injEq] at h
-        subst h
-        simp only [List.mem_cons] at hmem
-        rcases hmem with rfl | hm
-        · rfl
-        · simpa using (List.all_eq_true.mp hall) l hm
-      · rw [if_neg hall] at h; cases h
+theorem ptAxisLen_spec : ∀ (ls : List Nat) (cur d : Nat), ptAxisLen cur ls = some d →
+    (cur = d ∨ cur = 1) ∧ ∀ l ∈ ls, l = d ∨ l = 1
+  | [], cur, d, h => by
+    simp only [ptAxisLen, Option.some.injEq] at h
+    exact ⟨Or.inl h, fun l hl => by simp at hl⟩
+  | n :: rest, cur, d, h => by
+    unfold ptAxisLen at h
+    by_cases h1 : n = cur ∨ n = 1
+    · rw [if_pos h1] at h
+      obtain ⟨hc, hr⟩ := ptAxisLen_spec rest cur d h
+      refine ⟨hc, fun l hl => ?_⟩
+      simp only [List.mem_cons] at hl
+      rcases hl with rfl | hl
+      · rcases h1 with rfl | h1
+        · exact hc
+        · exact Or.inr h1
+      · exact hr l hl
+    · rw [if_neg h1] at h
+      by_cases h2 : cur = 1
+      · rw [if_pos h2] at h
+        obtain ⟨hc, hr⟩ := ptAxisLen_spec rest n d h
+        refine ⟨Or.inr h2, fun l hl => ?_⟩
+        simp only [List.mem_cons] at hl
+        rcases hl with rfl | hl
+        · exact hc
+        · exact hr l hl
+      · rw [if_neg h2] at h; cases h
+
+theorem ptAxis_spec (ls : List Nat) (d : Nat) (h : ptAxis ls = some d) : ∀ l ∈ ls, l = d ∨ l = 1 := by
+  cases ls with
+  | nil => intro l hl; simp at hl
+  | cons c cs =>
+    obtain ⟨hc, hr⟩ := ptAxisLen_spec cs c d h
+    intro l hl
+    simp only [List.mem_cons] at hl
+    rcases hl with rfl | hl
+    · exact hc
+    · exact hr l hl
 
 theorem foldl_max_ge : ∀ (l : List Nat) (m x : Nat), x ∈ l → x ≤ l.foldl max m
   | [], _, _, h => by simp at h
@@ -86,8 +101,7 @@ theorem foldl_max_ge : ∀ (l : List Nat) (m x : Nat), x ∈ l → x ≤ l.foldl
 /-- every operand shape broadcasts to the shape `get_shape_after_broadcasting` returns -/
 theorem ptBroadcast_bcastable (shapes : List Shape) (r : Shape) (h : ptBroadcast shapes = some r) :
     ∀ s ∈ shapes, Raise.Bcastable s r := by
-  rw [broadcast_eq_numpy] at h
-  unfold npBroadcast at h
+  unfold ptBroadcast at h
   simp only at h
   obtain ⟨hlen, hget⟩ := mapM_some_spec _ _ _ h
   simp only [List.length_range] at hlen
@@ -98,7 +112,7 @@ theorem ptBroadcast_bcastable (shapes : List Shape) (r : Shape) (h : ptBroadcast
   have hk' : r.length - s.length + k < r.length := by omega
   have := hget (r.length - s.length + k) (by simpa [hlen] using hk') hk'
   simp only [List.getElem_range] at this
-  have hspec := npAxisLen_spec _ _ this
+  have hspec := ptAxis_spec _ _ this
     ((padShape r.length s).getD (r.length - s.length + k) 1)
     (List.mem_map.mpr ⟨padShape r.length s, List.mem_map.mpr ⟨s, hs, by rw [hlen]⟩, rfl⟩)
   have hpad : (padShape r.length s).getD (r.length - s.length + k) 1 = s.getD k 0 := by
